@@ -163,11 +163,14 @@ pub fn make_pools(rng: &mut Rng) -> PubPools {
     let mut b2 = b1;
     let li = rng.usize(4);
     b2[li] = if b2[li] == P - 1 { 0 } else { b2[li] + 1 };
+    if rng.bool() {
+        b2 = crate::refm::add4(&b1, &crate::refm::structured_delta(rng));
+    }
     if b2 == [0; 4] {
         b2[2] = 9;
     }
     PubPools {
-        blocks: vec![(b1, rng.u32() as u64), (b2, rng.u32() as u64), ([0, 1, 0, 0], 3)],
+        blocks: vec![(b1, rng.u32() as u64), (b2, rng.u32() as u64), (if rng.bool() { [0, 1, 0, 0] } else { crate::refm::structured_delta(rng) }, 3)],
         assets: vec![0, 1 + rng.below(50)],
         fees: vec![rng.below(10001), rng.below(10001)],
     }
